@@ -295,7 +295,7 @@ def _send(ctx, e, target, step, bid):
     try:
         ctx.send_event(e, step=target)
     except Exception as x:  # noqa: BLE001
-        REC.add("send_error", step=step, bid=bid, uid=e.get("uid"), exc=type(x).__name__, msg=str(x)[:200], thread=threading.current_thread() is not threading.main_thread())
+        REC.add("step_send_error", step=step, bid=bid, uid=e.get("uid"), exc=type(x).__name__, msg=str(x)[:200], thread=threading.current_thread() is not threading.main_thread())
         raise
 
 
